@@ -121,3 +121,13 @@ def linear_units():
 
 def frac_float(n, d):
     return n / d
+
+
+def repaired_deviations(pid, names):
+    """Named deviations of a machine spec that are repaired in the tree: carried by a `fixed` entry of the known findings
+    of the property and by no `open` one.  The machine spec then transcribes the repaired algorithm (DESIGN 4.5)."""
+    from . import common as C
+    f = C.Findings(pid)
+    fixed = {t for e in f.fixed for t in e.get("tags", [])}
+    still = {t for e in f.open for t in e.get("tags", [])}
+    return sorted((set(names) & fixed) - still)
